@@ -6,6 +6,7 @@ mod cmd_enrich;
 mod cmd_binary;
 mod cmd_jax;
 mod cmd_lookup;
+mod cmd_record;
 mod enc;
 mod paths;
 mod project;
@@ -29,6 +30,7 @@ fn main() {
         "replay-binary" => cmd_binary::run(&args),
         "replay-jax" => cmd_jax::run(&args),
         "replay-lookup" => cmd_lookup::run(&args),
+        "record" => cmd_record::run(&args),
         "debug-mismatch" => cmd_binary::debug_mismatch(&args),
         "replay-one" => {
             let text = std::fs::read_to_string(args.req("file")).unwrap_or_else(|e| {
